@@ -178,12 +178,20 @@ func checkReadMethod(r3 *core.RuleRun, fn, advance *ssa.Function) {
 				accessor = x
 			}
 		case *ssa.BinOp:
-			if x.Op == token.LSS {
-				if c, ok := x.X.(*ssa.Call); ok {
-					if b, ok := c.Common().Value.(*ssa.Builtin); ok && b.Name() == "len" && fieldLoadName(c.Common().Args[0]) == "data" {
-						guard = x.Y
-					}
+			// "fails iff len(data) < v": len < v, len >= v, v > len, v <= len all split the same way
+			isLenData := func(v ssa.Value) bool {
+				c, ok := v.(*ssa.Call)
+				if !ok {
+					return false
 				}
+				b, ok := c.Common().Value.(*ssa.Builtin)
+				return ok && b.Name() == "len" && fieldLoadName(c.Common().Args[0]) == "data"
+			}
+			switch {
+			case (x.Op == token.LSS || x.Op == token.GEQ) && isLenData(x.X):
+				guard = x.Y
+			case (x.Op == token.GTR || x.Op == token.LEQ) && isLenData(x.Y):
+				guard = x.X
 			}
 		case *ssa.IndexAddr:
 			if fieldLoadName(x.X) == "data" {
